@@ -9,3 +9,18 @@ pub open spec fn others_unchanged_by_name(a: PackageSpecifiers, b: PackageSpecif
     b.package_reqs@ == a.package_reqs@ && b.packages_by_name@ == a.packages_by_name@
 }
 } // verus!
+verus! {
+/// C07: "the path that version's exports map gives for that export": a string `exports` only
+/// answers for ".", an object answers with the string stored under the export name, anything
+/// else (missing entry, non-string entry, other JSON) answers nothing
+pub open spec fn export_lookup(exports: JsonValue, name: Seq<char>, r: Option<&str>) -> bool {
+    match exports {
+        JsonValue::String(value) => if name == "."@ { r is Some && r.unwrap()@ == value@ } else { r is None },
+        JsonValue::Object(map) => match json_map_get(map, name) {
+            Some(JsonValue::String(value)) => r is Some && r.unwrap()@ == value@,
+            _ => r is None,
+        },
+        _ => r is None,
+    }
+}
+} // verus!
